@@ -409,7 +409,8 @@ type c16Run struct {
 	preFail  int       // index+1 of the earlier call that failed (0 = none)
 	hostStal string    // the host end of the pipeline can never finish (see c16HostPump)
 	hostDet  string
-	gaveUp   bool // a call that could not be cancelled was left behind after the verdict
+	gaveUp   bool     // a call that could not be cancelled was left behind after the verdict
+	epi      *ank.Out // result of the epilogue call (round 7), nil = not run
 }
 
 var c16Ignore = map[string]bool{} // goroutines of earlier cases that could not be removed
@@ -532,7 +533,9 @@ func c16Execute(c *wk.Case, p *c16Prog, procs int, h *c16Host) *c16Run {
 	h.cancel = cancel
 	e := ank.NewCoreEnv()
 	h.define(e.Define)
+	h.defineR7(e.Define)
 	c16DefineTypes(e)
+	c16DefineFuncTypes(e)
 	c.Begin(p.input(procs))
 	// mode "exec": vm.Execute (no context of the host's); otherwise vm.ExecuteContext
 	// under the context of this run
@@ -608,6 +611,12 @@ func c16Execute(c *wk.Case, p *c16Prog, procs int, h *c16Host) *c16Run {
 		h.mu.Unlock()
 		if !stopped {
 			c16Settle(base, r)
+			if p.epilogue != "" && r.leak == "" && r.leftover == "" && !r.out.Panicked {
+				// the goroutines of the program are gone (whatever became of them): the
+				// interpreter must still work on this environment
+				o := run(p.epilogue, "exec")
+				r.epi = &o
+			}
 		}
 	}
 	cancel()
@@ -667,6 +676,12 @@ type c16Prog struct {
 	pre      []c16Step
 	mainMode string
 	hostIO   *c16HostIO
+	// round 7 (c16_r7.go)
+	firstRep []string          // report names judged before everything else (the most specific diagnosis of a churn program)
+	mustMark map[string]string // mark that must be in the log -> signature when it is not
+	noMark   map[string]string // mark that must not be in the log -> signature when it is
+	epilogue string            // run with vm.Execute once every goroutine of the program is gone; must yield int64(42)
+	inChild  bool              // the program runs in a child process (a host crash is an observation)
 }
 
 type c16Step struct {
@@ -2273,6 +2288,15 @@ func c16Judge(p *c16Prog, r *c16Run, h *c16Host) (viols []c16Verdict, inconc []c
 			}
 		}
 	}
+	// round 7: an operation on a freshly made channel that failed (reported by the script
+	// with oops) is the most specific diagnosis of a churn program; lost messages, a stuck
+	// consumer and the like are its consequences
+	for _, n := range p.firstRep {
+		if got, want := h.reports[n], p.expRep[n]; strings.Join(got, "\x00") != strings.Join(want, "\x00") {
+			v(p.repSig[n], "observation %q: got %v, want %v", n, got, want)
+			return
+		}
+	}
 	if h.overrun != "" {
 		form := p.recvForm[h.overrun]
 		if h.overrun == "int64(99)" {
@@ -2465,6 +2489,34 @@ func c16Judge(p *c16Prog, r *c16Run, h *c16Host) (viols []c16Verdict, inconc []c
 			v(p.repSig[n], "observation %q: got %v, want %v", n, got, want)
 		}
 	}
+	// round 7: marks of the handlers started with go (the goroutines have ended: the
+	// log is complete unless some were left over), and the call made after them
+	if r.leak == "" && r.leftover == "" {
+		has := map[string]bool{}
+		for _, mk := range h.marks {
+			has[mk] = true
+		}
+		for _, mk := range c16SortedKeys(p.mustMark) {
+			if !has[mk] {
+				v(p.mustMark[mk], "mark %q is missing from the log %v", mk, c16Clip(h.marks, 40))
+			}
+		}
+		for _, mk := range c16SortedKeys(p.noMark) {
+			if has[mk] {
+				v(p.noMark[mk], "mark %q is in the log %v: the statement after the failing channel operation was executed", mk, c16Clip(h.marks, 40))
+			}
+		}
+	}
+	if p.epilogue != "" && r.epi != nil {
+		switch {
+		case r.epi.Panicked:
+			v(r.epi.PanicSig, "Go panic reached the host in the call made after the goroutines had ended: %s", r.epi.PanicVal)
+		case r.epi.Err != nil:
+			v("after-go-faults:call-failed:"+ank.AbstractMsg(r.epi.Err.Error()), "the call made on the environment after the goroutines had ended failed: %s", r.epi.Err.Error())
+		case ank.Render(r.epi.Val) != "int64(42)":
+			v("after-go-faults:wrong-result", "the call made on the environment after the goroutines had ended returned %s, want int64(42)", ank.Render(r.epi.Val))
+		}
+	}
 	return
 }
 
@@ -2482,6 +2534,12 @@ func (p *c16Prog) kind0() string {
 	}
 	if strings.HasPrefix(p.kind, "stepped:") {
 		return "stepped"
+	}
+	if strings.HasPrefix(p.kind, "churn:") {
+		return "churn"
+	}
+	if strings.HasPrefix(p.kind, "gofunc:") {
+		return "gofunc"
 	}
 	return p.kind
 }
@@ -2589,8 +2647,10 @@ func init() {
 		ID: "C16",
 		Plan: func(tier string) fw.Plan {
 			nPlain, nRace, nStep := 320, 160, 120
+			nChurn, nGoFunc := 40, 96
 			if tier == "thorough" {
 				nPlain, nRace, nStep = 6000, 2000, 1500
+				nChurn, nGoFunc = 600, 1500
 			}
 			return fw.Plan{
 				Level: "exploration",
@@ -2604,10 +2664,16 @@ func init() {
 					"n in {0,1,2,50,1000} uniquely identified messages, stages launched with go through named/anonymous/closure/6-parameter/variadic/spread/element-argument calls whose argument variables are reassigned right after, and through calls whose channel arguments are read from typed slots ([]chan T element, struct field; directly or via a binding) that are assigned other channels right after (the stage reports the channels it got, identified by registered name, once a gate is closed), receive forms for-in / receive expression / v,ok / counted `out <- <-in` / (forwarding stages) counted implicit relay `out <- in`, " +
 					"host jitter() (PRNG-chosen Gosched/sleep) at PRNG-chosen points, closed-channel and failing-operation checks on the main goroutine at the end (the failing send / close is a plain statement or, in half of the programs, the body of a loop: for-in over a channel directly or in a called function, for-in over a list, C-style for); each program runs under GOMAXPROCS 1,2,4,16 x repetitions (race phase: -race worker, one GOMAXPROCS setting per worker process). " +
 					"phase stepped: one pipeline driven through several calls on one environment (starting calls, later-call / split / host consumers, see c16_r5.go); in two programs of five the stage functions (optionally the consumer loops and the channels) are defined by a library call of their own under a context that is cancelled as soon as that call has returned (vm.ExecuteContext, or parser.ParseSrc + vm.RunContext), and are started / called by later vm.Execute / vm.ExecuteContext calls. " +
+					"phase churn (c16_r7.go): long runs that make, use, close and drop a channel per item - 500 to 10000 cycles (twice that in the thorough tier) of loop-back (send, receive, close on the main goroutine; or closed with the messages still queued), request/reply (1-3 long-lived workers, a window of 1/2/4 requests each with a reply channel of its own, in a list or a typed []chan T, closed by the worker / the client / nobody), batch (a feeder goroutine per channel started through a named / anonymous / closure call, consumer for-in / v,ok loop / receive-expression loop), generator (a function makes the channel, starts the feeder, returns the channel), signal (a goroutine closes the channel its starter waits on with a receive expression / v,ok / for-in) - " +
+					"over 1-3 channel shapes (element type x capacity 0/1/2/4) per program, closed channels dropped at once or kept in a list until the end of the round, the host's garbage collector run by the script through the host function gc() after every round / every 4th round / between the calls / never (then the run is 5000-10000 cycles long and the collector runs on its own), in one call or spread over 2-5 vm.Execute / vm.ExecuteContext calls on one environment with the functions defined by a library call (optionally under a context released when it has returned); every message carries a running number and must arrive exactly once, in order, converted to the element type of its channel; an operation of a cycle that fails is reported with oops(step, error) (signature fresh-chan:<step>-failed, judged before its consequences); on every P-th cycle (P in 3/7/16/50) the channel just closed must refuse a send and a second close with an error and yield nil to a receive expression, and the number of such errors is compared at the end. " +
+					"phase gofunc (c16_r7.go), run in a CHILD process per program so that the death of the hosting process is an observation: 2-5 handlers started with go (or, one program in four, one of them called by the main goroutine inside try) whose callee is a Go func value wrapping a script function - func-typed field of a host struct (func(), func(int64), func(int64,string), func(...int64) plain and spread, func(interface{},interface{}), func(int64) int64), element of []Handler1 / map[string]Handler1 (index and member) / chan Handler1 / *Handler1 / script-made struct field / []HandlerN (named func type), returned by a host function (identity, Go closure around it), argument of a Go function that is the callee itself (call1(f, k), callv(f, k, 7)), called synchronously inside a go-started plain function - or a plain named / anonymous script function; " +
+					"healthy handlers are the producers of a fan-in (they report their arguments: the values at the go statement), faulty ones send on a closed channel / close a closed channel (given, closed by themselves just before, in the body of a for-in over a channel), bare or inside try (a few throw / call an undefined function / index out of range: for those only the survival of the host and the healthy traffic are judged); the statement after the failing one must not run, the try must catch it, the fan-in delivers everything, a call on the environment after all goroutines have ended works, and the child process is alive (its death = violation host-died:goroutine-of:<entry point>:panic-in:<innermost anko frame>). " +
 					"An evaluation = one run of one program; non-trivial when messages were delivered or closed-channel observations were made; distinct = distinct program source.",
 				Assumptions: []string{
 					"script goroutines communicate only through channels and locking host functions (no unsynchronised shared containers)",
-					"failing operations (send on closed, double close) are issued on the main script goroutine only: an error inside a `go` body has no receiver (C01 territory)",
+					"failing operations (send on closed, double close) are issued on the main script goroutine in the pipeline / semantics / stepped / churn phases; in phase gofunc they are issued inside functions started with go as well: such an error has no receiver, so what is judged there is what the statement says of it - it is an error (the rest of the function is not executed, a try inside the function catches it) and never a crash (the hosting process survives, the other goroutines and later calls are unaffected)",
+					"phase gofunc: Options.Debug is off (the default); the Go func values are called by the script only (go statement or synchronous call) - what a Go caller of such a value sees when the wrapped script function fails (a panic carrying the error: a func(int64) has no other way) is the host's own affair and is not generated; every func-typed slot is used by one handler only (when the callee expression of a go statement is read is not stated; the ARGUMENTS are reassigned right after the go statement as everywhere); throw / undefined function / index out of range inside a go-started handler are not named by the statement: only the survival of the host is judged for them",
+					"phase churn: a channel made by make(chan T[, n]) is fresh - open and empty - whatever happened to channels made earlier (Go semantics; the statement's 'behave as Go channels'); gc() is a host function the engine binds (runtime.GC()), the scripts have no collector control of their own; nothing depends on whether or when an address is reused - the oracle is the same with or without collections",
 					"messages are never nil (a nil message is indistinguishable from the closed-channel result of a receive expression) and never channels (`out <- ch` is anko's receive-and-forward form, exercised as such: it must behave as `out <- <-ch`; a relay from a closed and drained channel is not generated, the statement does not say what it sends)",
 					"a goroutine and a channel made by one call on an environment live on after that call returned, as in Go (stepped programs); the host touches script-made channels only between calls and only with non-blocking operations; its end of the pipeline is judged stuck from goroutine states only (no interpreter goroutine left, or all of them parked in channel operations in two identical samples with no host operation possible)",
 					"the context handed to vm.ExecuteContext / vm.RunContext governs that call and the goroutines it started: cancelling it after the call has returned, when the call started no goroutine, affects no later call on the environment, whoever defined the functions the later call runs (library programs); cancelling a context while its call or its goroutines still run is C02's matter and is not generated here",
@@ -2623,6 +2689,8 @@ func init() {
 					{Name: "pipelines", Cases: nPlain, Chunk: 10, TimeoutS: 900},
 					{Name: "pipelines-race", Race: true, Cases: nRace, Chunk: c16RaceChunk, TimeoutS: 1200},
 					{Name: "stepped", Cases: nStep, Chunk: 12, Jobs: 4, MemMB: 3072, TimeoutS: 900},
+					{Name: "churn", Cases: nChurn, Chunk: 3, TimeoutS: 900},
+					{Name: "gofunc", Cases: nGoFunc, Chunk: 8, TimeoutS: 900},
 				},
 			}
 		},
@@ -2630,6 +2698,27 @@ func init() {
 			if c.Phase == "semantics" {
 				p := c16Semantic(c.Index)
 				c16RunProgram(c, p, []int{1, 4}, 1, c.Index%61 == 0)
+				return
+			}
+			if c.Phase == "churn" {
+				p := c16Churn(c.Rng, c.Tier)
+				// one (long) run per program, the GOMAXPROCS setting varies over the programs
+				procs := []int{c16Procs[c.Rng.Intn(len(c16Procs))]}
+				if c.Tier == "thorough" {
+					procs = [][]int{{1, 4}, {2, 16}, {4, 1}}[c.Rng.Intn(3)]
+				}
+				c16RunProgram(c, p, procs, 1, true)
+				return
+			}
+			if c.Phase == "gofunc" {
+				seed := c.Rng.Int63()
+				p := c16GoFunc(rand.New(rand.NewSource(seed)), c.Tier)
+				procs := [][]int{{1, 4}, {2, 16}, {4, 1}}[c.Rng.Intn(3)]
+				reps := 1
+				if c.Tier == "thorough" {
+					reps = 3
+				}
+				c16RunInChild(c, "gofunc", p, seed, procs, reps)
 				return
 			}
 			if c.Phase == "stepped" {
